@@ -63,10 +63,10 @@ def _consistent(path):
     in between"""
     facts_ = {}
     for ev in path:
-        if ev[0] == "assign":
+        if ev[0] in ("assign", "step"):
             l = X.apath(ev[2]["ch"][0])
             copied = None
-            if ev[2].get("op") == "=" and l is not None:
+            if ev[0] == "assign" and ev[2].get("op") == "=" and l is not None:
                 r0 = X.apath(ev[2]["ch"][1])
                 if r0 is not None and r0 in facts_ and facts_[r0][0] in ("nn", "null"):
                     copied = (facts_[r0][0], l)          # a plain copy carries the NULL-ness of its source
@@ -141,10 +141,10 @@ def expand_flag_tests(ps, limit=4096):
     return out
 
 
-def enumerate_paths(fn, limit=4096, noreturn=(), inline=None, expand=False, _depth=0, decls=False):
+def enumerate_paths(fn, limit=4096, noreturn=(), inline=None, expand=False, _depth=0, decls=False, steps=False):
     """inline: {name: Function} helpers whose own paths are spliced in at their call sites (parameters replaced by the
     argument expressions; the helper's return shows as ('hret', return node, call node));  expand: see expand_flag_tests"""
-    ps = _enumerate_paths(fn, limit, noreturn, decls=decls)
+    ps = _enumerate_paths(fn, limit, noreturn, decls=decls, steps=steps)
     if inline and _depth < 3:
         res = []
         for p in ps:
@@ -154,7 +154,7 @@ def enumerate_paths(fn, limit=4096, noreturn=(), inline=None, expand=False, _dep
                 if g is not None and g is not fn and inlinable(g):
                     args = ev[2]["ch"][1:]
                     mapping = {pp["d"]: args[i] for i, pp in enumerate(g.params) if i < len(args)}
-                    gps = enumerate_paths(g, limit, noreturn, inline={k: v for k, v in inline.items() if k != g.name}, _depth=_depth + 1, decls=decls)
+                    gps = enumerate_paths(g, limit, noreturn, inline={k: v for k, v in inline.items() if k != g.name}, _depth=_depth + 1, decls=decls, steps=steps)
                     new = []
                     for gp in gps:
                         seq = []
@@ -166,6 +166,8 @@ def enumerate_paths(fn, limit=4096, noreturn=(), inline=None, expand=False, _dep
                                 seq.append(("call", gev[1], subst_params(gev[2], mapping)))
                             elif gev[0] == "assign":
                                 seq.append(("assign", gev[1], subst_params(gev[2], mapping)))
+                            elif gev[0] == "step":
+                                seq.append(("step", gev[1], subst_params(gev[2], mapping)))
                             elif gev[0] == "ret":
                                 seq.append(("hret", subst_params(gev[1], mapping), ev[2]))
                             elif gev[0] == "noreturn":
@@ -211,7 +213,7 @@ def enumerate_paths(fn, limit=4096, noreturn=(), inline=None, expand=False, _dep
     return ps
 
 
-def _enumerate_paths(fn, limit=4096, noreturn=(), decls=False):
+def _enumerate_paths(fn, limit=4096, noreturn=(), decls=False, steps=False):
     cfg = fn.cfg
     nodes = fn.nodes
     out = []
@@ -228,6 +230,8 @@ def _enumerate_paths(fn, limit=4096, noreturn=(), decls=False):
                 ev.append(("assign", X.render(n["ch"][0]), n))
             elif n.get("k") == "return":
                 ev.append(("ret", n))
+            elif steps and n.get("k") == "un" and n.get("op") in ("++", "--"):
+                ev.append(("step", n["op"], n))           # x++ / x-- as an event of its own (only on request)
             elif decls and n.get("k") == "decl":
                 # a declaration with an initialiser is the local's first assignment
                 for dc in n.get("decls", ()):
